@@ -99,3 +99,9 @@ fn slice_args(_: &mut W, all: &[u64]) {
 #[given("twice")]
 #[when("twice again")]
 fn twice(_: &mut W) {}
+
+// ---- user-named capture groups whose names share a prefix: each group is its own argument
+#[then(regex = r"^(?P<user_name>\S+) is (?P<user_age>\d+)$")]
+fn named_groups(_: &mut W, name: String, age: u32) {
+    let _ = (name, age);
+}
